@@ -60,9 +60,11 @@ def gen_program(rng):
     def count(k):
         shapes[k] = shapes.get(k, 0) + 1
 
+    # backspaces in 40% of the programs only: they are outside the domain of the independent 608 reading (sent608)
+    p_bs = 0.04 if rng.random() < 0.4 else 0.0
     for i in range(nrows):
         toks = g.rand_tokens(rng, rng.choice([1, 2, 3, 5, 8, 13, 20, 31, 32, rng.randint(1, 32)]), p_special=0.07,
-                             p_ext=0.09, p_bs=0.04, blank_ends=0.35, sp9=True)
+                             p_ext=0.09, p_bs=p_bs, blank_ends=0.35, sp9=True)
         text = g.tokens_text(toks).rstrip()
         # ---- mode command in front of the row?
         cmd = None
@@ -301,6 +303,10 @@ def run(ctx):
     dist["earlier_reads_ended"] = {k: houts.count(k) for k in sorted(set(houts))}
     models = sccobs.model_batch([(p["stream"], 0) for p in progs])
     oks = oracle_batch([(1601, [p["rows"], p["buffers"], obs3(o)]) for p, o in zip(progs, obs)])
+    # the INDEPENDENT 608 reading of the word stream (spec/SpecScc16Sent.v: Spec608 tables + the 608 doubling rule; theorem
+    # C16_rollup_painton_conserved_608 for the model): [dom608, sent608] of the text, tokenised by the Coq tokeniser
+    sent = oracle_batch([(1603, p["stream"]) for p in progs])
+    dist["independent_608_reading"] = {"in_dom608": 0, "outside_dom608": 0}
     evreq = [(i, (1602, p["events"])) for i, p in enumerate(progs) if p["events"] is not None]
     evans = dict(zip([i for i, _ in evreq], oracle_batch([r for _, r in evreq])))
     for i, (p, o, m, ok) in enumerate(zip(progs, obs, models, oks)):
@@ -321,6 +327,26 @@ def run(ctx):
         if len(p["rows"]) >= 2:
             res["nontrivial"].add(p["stream"])
         o3 = obs3(o)
+        if p["buffers"] == 0:
+            # no row shows a visible character: nothing is transmitted, the reader has no caption to return ("empty
+            # caption file"); anything else is judged below
+            dist["programs_without_visible_text"] = dist.get("programs_without_visible_text", 0) + 1
+            if isinstance(o, Err) and o == m:
+                continue
+        if sent[i][0] == 1:
+            dist["independent_608_reading"]["in_dom608"] += 1
+            want = "".join(ch for ch in sent[i][1] if ch != " ")
+            got = "".join(ch for c in o3.v for ch in c[2] if ch not in " \n") if isinstance(o3, Ok) else None
+            if got != want:
+                res["violations"].append({"kind": "not-conserved", "replay": "stream", "input": desc,
+                                          "what": "the non-blank characters of the returned captions are not the characters "
+                                                  "a CEA-608 decoder displays for this word stream (independent reading "
+                                                  "sent608)", "stream": p["stream"], "rows": p["rows"],
+                                          "buffers": p["buffers"], "lang": p["lang"], "history": p["history"],
+                                          "sent608": want, "impl_text": got})
+                continue
+        else:
+            dist["independent_608_reading"]["outside_dom608"] += 1
         if ok[0] != 1:
             kind = "not-conserved" if ok[1] != 1 else ("chain-broken" if ok[2] != 1 else "screens-merged-or-split")
             what = {"not-conserved": "the returned caption texts are not the transmitted rows (every character once, in "
@@ -362,11 +388,13 @@ def run(ctx):
     res["samples"] = [{"rows": p["rows"], "buffers": p["buffers"], "stream": p["stream"]} for p in progs[:2]]
     res["clauses"] = {
         "theorem": ["conservation on the whole decoder model for the roll-up / paint-on alphabet (non-blank characters "
-                    "handed to the buffer = non-blank characters of the returned captions, in order; relative to the "
-                    "decoder's own tables and doubling rule, which C05's table theorems and doubling_unconditional tie to CEA-608)",
+                    "handed to the buffer = non-blank characters of the returned captions, in order); on dom608 these are the "
+                    "characters of the INDEPENDENT 608 reading sent608 (Spec608 tables + 608 redundancy rule): "
+                    "rollup_painton_conserved_608",
                     "event-level flush model rp_read: spans = chain through the flush instants; start < end and strictly "
-                    "increasing starts for increasing instants (not linked to read by a theorem: linked by execution, "
-                    "request 1602 vs the implementation's screens)",
+                    "increasing starts for increasing instants; linked to read by the theorem rp_link for lines `RUn [CR] | CR | "
+                    "RDC, PAC, one row of character pairs` (all single / all doubled), by execution (request 1602 vs the "
+                    "implementation's screens) for everything else",
                     "caption list keeps order, starts and nodes (definitional support lemma)"],
         "correspondence_only": ["blank characters, exact line structure (rows kept together), start < end / order / chain "
                                 "of what read returns: oracle on the implementation + decoder model at (start, end, text)",
@@ -376,5 +404,7 @@ def run(ctx):
 
 def replay(ctx, rec):
     o = sccobs.observe(rec["stream"], lang=rec.get("lang"), history=rec.get("history"))
+    if rec.get("buffers") == 0 and o == Err(1):
+        return False, "no visible text, no captions: " + repr(o)
     ok = oracle1(1601, [rec["rows"], rec["buffers"], obs3(o)])
     return ok[0] != 1, repr(obs3(o))[:600]
